@@ -564,6 +564,204 @@ theorem sniRoute_std (s name : Bytes) (h : stdRoute s = some name) : sniRoute s 
           take_drop_hdr]
         exact hu
 
+/-! ### the strict reader accepts the encoding of every well-formed hello, with its name -/
+
+/-- the parts of an abstract extension list -/
+def rawExts (es : List Ext) : List (Nat × Bytes) := es.map (fun e => (e.typ, e.body))
+
+theorem splitNames_enc (entries : List (UInt8 × Bytes)) (hok : ∀ e ∈ entries, e.2.length < 65536) :
+    ∀ fuel, (encNameList entries).length < fuel → splitNames fuel (encNameList entries) = some entries := by
+  induction entries with
+  | nil =>
+    intro fuel hf
+    cases fuel with
+    | zero => simp [encNameList] at hf
+    | succ f => rfl
+  | cons e es ih =>
+    intro fuel hf
+    cases fuel with
+    | zero => omega
+    | succ f =>
+      have hlen : e.2.length < 65536 := hok e (List.mem_cons_self ..)
+      have hshape : encNameList (e :: es) =
+          e.1 :: UInt8.ofNat (e.2.length / 256) :: UInt8.ofNat (e.2.length % 256) :: (e.2 ++ encNameList es) := by
+        simp [encNameList, encNameEntry, enc16]
+      rw [hshape] at hf ⊢
+      rw [splitNames, rdVec16_cons, be16_enc16 _ hlen, rdBytes_some (by simp)]
+      simp only [List.take_left' rfl, List.drop_left' rfl]
+      rw [ih (fun x hx => hok x (List.mem_cons_of_mem _ hx)) f (by
+        simp only [List.length_cons, List.length_append] at hf; omega)]
+      rfl
+
+theorem splitExts_enc (es : List Ext) (hok : ∀ e ∈ es, ExtOk e) :
+    ∀ fuel, (encExts es).length < fuel → splitExts fuel (encExts es) = some (rawExts es) := by
+  induction es with
+  | nil =>
+    intro fuel hf
+    cases fuel with
+    | zero => simp [encExts] at hf
+    | succ f => rfl
+  | cons e es ih =>
+    intro fuel hf
+    cases fuel with
+    | zero => omega
+    | succ f =>
+      have he : ExtOk e := hok e (List.mem_cons_self ..)
+      rw [encExts_cons_shape] at hf ⊢
+      rw [splitExts, rdVec16_cons, be16_enc16 _ (extOk_body_lt he), rdBytes_some (by simp)]
+      simp only [List.take_left' rfl, List.drop_left' rfl]
+      rw [ih (fun x hx => hok x (List.mem_cons_of_mem _ hx)) f (by
+        simp only [List.length_cons, List.length_append] at hf; omega)]
+      have ht := extOk_typ_lt he
+      have : (UInt8.ofNat (e.typ / 256)).toNat * 256 + (UInt8.ofNat (e.typ % 256)).toNat = e.typ := by
+        rw [← be16_eq, be16_enc16 _ ht]
+      simp only [Option.map_some, this, rawExts, List.map_cons]
+
+theorem hostName_eq_find (ns : List (UInt8 × Bytes)) :
+    hostName ns = (ns.find? (fun e => e.1 == 0)).map (·.2) := by
+  induction ns with
+  | nil => rfl
+  | cons e es ih =>
+    by_cases h0 : e.1 = 0
+    · simp [hostName, List.find?, h0]
+    · have hb : (e.1 == 0) = false := by simpa using h0
+      simp only [hostName, if_neg h0, List.find?, hb, ih]
+
+theorem filter_nodup_le_one (ns : List (UInt8 × Bytes)) (hn : (ns.map (·.1)).Nodup) :
+    (ns.filter (fun e => e.1 == 0)).length ≤ 1 := by
+  induction ns with
+  | nil => simp
+  | cons e es ih =>
+    rw [List.map_cons, List.nodup_cons] at hn
+    by_cases h0 : e.1 = 0
+    · have : es.filter (fun e => e.1 == 0) = [] := by
+        rw [List.filter_eq_nil_iff]
+        intro x hx hx0
+        apply hn.1
+        have : x.1 = 0 := by simpa using hx0
+        rw [h0, ← this]
+        exact List.mem_map_of_mem hx
+      simp [List.filter, h0, this]
+    · have hb : (e.1 == 0) = false := by simpa using h0
+      simp only [List.filter, hb]
+      exact ih hn.2
+
+theorem encNameList_pos (ns : List (UInt8 × Bytes)) (h : ns ≠ []) : 0 < (encNameList ns).length := by
+  cases ns with
+  | nil => exact absurd rfl h
+  | cons e es => simp [encNameList, encNameEntry]
+
+theorem stdSni_enc (ns : List (UInt8 × Bytes)) (hok : ExtOk (.serverName ns)) :
+    stdSni (Ext.body (.serverName ns)) = some ((hostName ns).getD []) := by
+  obtain ⟨hne, hent, hnd, hlen⟩ := hok
+  have hl : (encNameList ns).length < 65536 := by omega
+  have hshape : Ext.body (.serverName ns) =
+      UInt8.ofNat ((encNameList ns).length / 256) :: UInt8.ofNat ((encNameList ns).length % 256) ::
+        encNameList ns := by
+    simp [Ext.body, enc16]
+  have hpos := encNameList_pos ns hne
+  unfold stdSni
+  rw [hshape, rdVec16_cons, be16_enc16 _ hl, rdBytes_some (Nat.le_refl _), List.take_length, List.drop_length]
+  simp only [List.length_nil]
+  rw [if_neg (by omega), splitNames_enc ns (fun e he => (hent e he).2.1) _ (by omega)]
+  simp only
+  have hany : ns.any (fun e => e.2.length == 0) = false := by
+    rw [List.any_eq_false]
+    intro e he
+    have := (hent e he).1
+    simp only [beq_iff_eq]; omega
+  rw [hany]
+  simp only [Bool.false_eq_true, if_false]
+  rw [if_neg (by have := filter_nodup_le_one ns hnd; omega), List.head?_filter, hostName_eq_find]
+  cases hf : ns.find? (fun e => e.1 == 0) with
+  | none => rfl
+  | some e =>
+    have hmem := List.mem_of_find?_eq_some hf
+    have h0 : e.1 = 0 := by simpa using List.find?_some hf
+    simp only [Option.map_some, Option.getD_some]
+    rw [if_neg ((hent e hmem).2.2 h0)]
+
+theorem frameExts_enc (o : Option (List Ext)) (hok : ExtsOk o) :
+    frameExts (encExtBlock o) = some (o.map rawExts) := by
+  cases o with
+  | none => rfl
+  | some es =>
+    have hshape : encExtBlock (some es) =
+        UInt8.ofNat ((encExts es).length / 256) :: UInt8.ofNat ((encExts es).length % 256) :: encExts es := by
+      simp [encExtBlock, enc16]
+    rw [hshape, frameExts_cons, be16_enc16 _ hok.2.2, if_pos rfl, splitExts_enc es hok.1 _ (by omega)]
+    rfl
+
+theorem frame_encode (h : Hello) (hw : WellFormed h) :
+    ∃ rh, frame (encode h) = some rh ∧ rh.sessionId.length = h.sessionId.length ∧
+      rh.extensions = h.extensions.map rawExts := by
+  have hr := hw.random
+  have hs := hw.sessionId
+  have hcl := encCiphers_length h.cipherSuites
+  have hc := hw.ciphers
+  have hhl := headPart_length h hr
+  rw [encode_split]
+  have hto : (UInt8.ofNat h.sessionId.length).toNat = h.sessionId.length := by simp; omega
+  have htc : (UInt8.ofNat h.compressionMethods.length).toNat = h.compressionMethods.length := by
+    have := hw.compression; simp; omega
+  rw [frame_eq _ (by rw [List.length_append]; omega), headPart_get h hr _ (by rw [List.length_append]; omega), hto,
+    if_neg (by rw [List.length_append]; omega), List.drop_left' hhl, encCipherBlock_shape, frameCiphers_cons,
+    be16_enc16 _ (by omega), if_neg (by simp only [List.length_append]; omega), List.drop_left' rfl,
+    encCompressionBlock_shape, frameCompression_cons, htc, if_neg (by simp only [List.length_append]; omega),
+    List.drop_left' rfl, frameExts_enc _ hw.exts]
+  refine ⟨_, rfl, ?_, rfl⟩
+  simp only [List.length_take, List.length_drop, List.length_append, hhl]
+  omega
+
+theorem find_rawExts (es : List Ext) :
+    (rawExts es).find? (fun e => e.1 == 0) = (es.find? (fun e => e.typ == 0)).map (fun e => (e.typ, e.body)) := by
+  induction es with
+  | nil => rfl
+  | cons e es ih =>
+    by_cases h0 : e.typ = 0
+    · simp [rawExts, List.find?, h0]
+    · have hb : (e.typ == 0) = false := by simpa using h0
+      simp only [rawExts, List.map_cons, List.find?, hb]
+      exact ih
+
+theorem stdName_encode (h : Hello) (hw : WellFormed h) (rh : RawHello)
+    (hsid : rh.sessionId.length = h.sessionId.length) (hext : rh.extensions = h.extensions.map rawExts) :
+    stdName 32 rh = some (sniOf h) := by
+  unfold stdName sniOf
+  rw [if_neg (by have := hw.sessionId; omega), hext]
+  have hx := hw.exts
+  cases he : h.extensions with
+  | none => rfl
+  | some es =>
+    rw [he] at hx
+    simp only [Option.map_some]
+    have hnd : ((rawExts es).map (·.1)).Nodup := by
+      have : (rawExts es).map (·.1) = es.map Ext.typ := by simp [rawExts]
+      rw [this]; exact hx.2.1
+    rw [if_neg (by simpa using hnd), find_rawExts]
+    cases hf : es.find? (fun e => e.typ == 0) with
+    | none => rfl
+    | some e =>
+      have hmem := List.mem_of_find?_eq_some hf
+      have h0 : e.typ = 0 := by simpa using List.find?_some hf
+      simp only [Option.map_some]
+      cases e with
+      | serverName ns => exact stdSni_enc ns (hx.1 _ hmem)
+      | other t b => exact absurd h0 (hx.1 _ hmem).1
+
+theorem firstMessage_record (a b : UInt8) (h : Hello) (hf : FitsRecord h) (tail : Bytes) :
+    firstMessage maxRecordLen (record a b h ++ tail) = some (encode h) := by
+  have hfit : (encode h).length ≤ 16384 := hf
+  have hel := encode_length h
+  have hpos := encBody_pos h
+  rw [record_shape]
+  simp only [List.cons_append]
+  unfold firstMessage
+  simp only [← be16_eq, ← be24_eq, maxRecordLen]
+  rw [be16_enc16 _ (by omega), be24_enc24 _ (by omega)]
+  rw [if_neg (by simp only [List.length_append, ne_eq, not_true_eq_false, false_or]; omega), List.take_left' rfl]
+  simp [encode, enc24]
+
 /-! ### `ServeTCP` up to the dial -/
 
 /-- `serveTCP` is `sniRoute` plus the empty-name check; the bytes it hands on are the first `bufSizeOf` bytes. -/
